@@ -3,7 +3,7 @@
    Matcher.v (boundary matcher), Limits.v (limits / status codes), Link.v (generated-from-source leafs).
    Model: Defs.v (per-byte step of multipart_parser::consume, header parser, request-level driver
    on_content_start / on_content_progress, urlencoded splitter). *)
-From CppcmsV Require Import Base.Tac Base.CSem Base.Sweep C12.Defs C12.Proofs C12.Matcher C12.Limits C12.Roundtrip C12.Filter C12.Urlenc C12.Fuel C12.Framing C12.Link gen.Gen_c12.
+From CppcmsV Require Import Base.Tac Base.CSem Base.Sweep C12.Defs C12.Proofs C12.Matcher C12.Limits C12.Roundtrip C12.Filter C12.Urlenc C12.Fuel C12.Framing C12.Domain C12.ResDefs C12.ResProofs C12.ResProofs2 C12.MoreDefs C12.UrlAny C12.CType C12.Abort C12.AbortCut C12.Link C12.LinkLimits gen.Gen_c12 gen.Gen_c12lim.
 Local Open Scope N_scope.
 
 (* ------------------------------------------------------------------------------------------ *)
@@ -81,11 +81,15 @@ Theorem matcher_needs_cr_free_key_refuted :
 Proof. exact matcher_misses_with_cr_in_key. Qed.
 Print Assumptions matcher_needs_cr_free_key_refuted.
 
-(* the header terminator matcher resets to 0 without restart: CR CR LF CR LF is not recognised
-   (malformed part header; outside well-formed input) *)
-Theorem header_terminator_no_restart_refuted : hterm 0 [13;13;10;13;10] = Some 2%nat.
-Proof. exact header_terminator_missed_after_cr. Qed.
-Print Assumptions header_terminator_no_restart_refuted.
+(* the header terminator matcher (since repair 3fc4520: restart at 1 when the mismatching byte is CR): for EVERY
+   text - bare CRs included - it stops iff CR LF CR LF occurs, i.e. exactly at the first occurrence *)
+Theorem header_terminator_recognised_at_first_occurrence : forall w, hterm 0 w = None <-> occurs crlfcrlf w.
+Proof. exact hterm_none_iff_occurs. Qed.
+Print Assumptions header_terminator_recognised_at_first_occurrence.
+(* regression Example: the witness of the former header_terminator_no_restart_refuted - recognised now, missed by
+   the matcher as it was (hterm_old) *)
+Example header_terminator_old_witness : hterm 0 [13;13;10;13;10] = None /\ hterm_old 0 [13;13;10;13;10] = Some 2%nat.
+Proof. exact header_terminator_after_cr. Qed.
 
 (* the matcher inside the parser: in the content state, a part content x free of the boundary is
    stored byte for byte, the entry is completed at the delimiter, and parsing goes on with the rest;
@@ -390,3 +394,368 @@ Print Assumptions source_token_char_is_model.
 Theorem source_xdigit_is_model : forall b, b < 256 -> g_c12_xdigit (wraps 8 (Z.of_N b)) = xdigit b.
 Proof. exact link_xdigit. Qed.
 Print Assumptions source_xdigit_is_model.
+
+(* ------------------------------------------------------------------------------------------ *)
+(* 5. boundaries a peer may legally send; part header blocks: ANY bytes (since repair 3fc4520)  *)
+(* ------------------------------------------------------------------------------------------ *)
+(* every boundary that RFC 2046 5.1.1 allows (1..70 bchars, not ending with a space) satisfies the
+   hypotheses "no CR in key" and "key <> []" of matcher_correct / decode_encode / framing_exact *)
+Theorem rfc2046_boundaries_are_in_the_domain : forall key, rfc2046_boundary key -> ~ In 13 key /\ key <> [].
+Proof. exact rfc2046_boundary_ok. Qed.
+Print Assumptions rfc2046_boundaries_are_in_the_domain.
+
+(* hdr_ends H (the hypothesis of framing_exact about a part header block) holds exactly for the blocks whose
+   FIRST CR LF CR LF is at their end - any bytes, bare CRs included *)
+Theorem header_block_ends_at_first_terminator : forall H,
+  hdr_ends H <-> exists x, H = x ++ crlfcrlf /\ ~ occurs crlfcrlf (x ++ [13;10;13]).
+Proof.
+  intros H. split; [apply hdr_ends_first|]. intros [x [E Hno]]. subst H. apply first_terminator_ends_block. exact Hno.
+Qed.
+Print Assumptions header_block_ends_at_first_terminator.
+(* a part header with ANY bytes (bare CR included) is either refused with 400 or framed exactly: once the first
+   CR LF CR LF has been read the block - and nothing more - goes to process_header; if it is refused the request
+   is answered with 400, otherwise the content starts right after it (part_content_reconstructed then gives the
+   content byte for byte up to the next delimiter).  This is what the repaired code does with a malformed header
+   line: a bare CR inside a header the parser does not interpret is tolerated (the value is ignored anyway), a bare
+   CR that breaks the Content-Disposition syntax is refused; in neither case is anything delivered in part or under
+   another name - the refusal clause of the property holds for this input class. *)
+Theorem part_header_refused_or_framed_exactly : forall bnd lim x fs rest, ~ occurs crlfcrlf (x ++ [13;10;13]) ->
+  let H := x ++ crlfcrlf in
+  (forall f, process_header (S (length H)) H empty_file = FOk f ->
+     feed bnd lim (mkst CrlfCrlf 0 [] empty_file fs false) (H ++ rest) = feed bnd lim (mkst SepBoundary 0 [] f fs true) rest) /\
+  (process_header (S (length H)) H empty_file = FFail ->
+     feed bnd lim (mkst CrlfCrlf 0 [] empty_file fs false) (H ++ rest) = OStop 400).
+Proof.
+  intros bnd lim x fs rest Hno. cbv zeta. pose proof (first_terminator_ends_block x Hno) as He. split.
+  - intros f Hf. apply feed_hdr_block; assumption.
+  - intros Hf. apply feed_hdr_block_refused; assumption.
+Qed.
+Print Assumptions part_header_refused_or_framed_exactly.
+
+(* every part header block made of one or more non-empty lines without CR, each ended by CR LF, plus
+   the empty line, is ended by the terminator matcher exactly at its last byte and at no earlier byte (special
+   case of the above, kept from the round before the repair); a line folded with CR LF SP is fine as well *)
+Theorem wellformed_header_block_terminated_exactly : forall lines, lines <> [] -> Forall hline_ok lines ->
+  hdr_ends (hdr_block lines) /\
+  (forall a b, hdr_block lines = a ++ b -> b <> [] -> exists q, hterm 0 a = Some q).
+Proof.
+  intros lines Hne Hf. split; [exact (wellformed_hdr_block_ends lines Hne Hf)|].
+  intros a b. exact (wellformed_hdr_block_not_earlier lines a b Hne Hf).
+Qed.
+Print Assumptions wellformed_header_block_terminated_exactly.
+Theorem folded_header_line_keeps_terminator_state : forall l p, fold_ok l -> (p = 0 \/ p = 2)%nat ->
+  hterm p (l ++ crlf) = Some 2%nat.
+Proof. exact hterm_folded_line. Qed.
+Print Assumptions folded_header_line_keeps_terminator_state.
+Example domain_nonvacuous :
+  rfc2046_boundary [45;45;45;45;87;101;98;75;105;116;39;40;41;43;95;44;46;47;58;61;63;32;120] /\
+  Forall hline_ok [[88;58;32;97]; [89;58;10;98]] /\ hterm 0 (hdr_block [[88;58;32;97]; [89;58;10;98]]) = None.
+Proof.
+  split; [split; [vm_compute; reflexivity|split; [cbn; lia|vm_compute; discriminate]]|].
+  split; [|vm_compute; reflexivity].
+  repeat constructor; try discriminate; intros H; vm_compute in H; intuition discriminate.
+Qed.
+
+(* ------------------------------------------------------------------------------------------ *)
+(* 6. temporary files: the upload file objects as a resource state machine (ResDefs.v):          *)
+(*    file_buffer put side (memory until the size exceeds the limit, then one temporary file),   *)
+(*    file::close / ~file / save_to / make_permanent, the owners (parser file_/files_, the local *)
+(*    vector in on_content_progress, request::files_, references kept by the application).       *)
+(*    g_create / g_close / g_remove count fopen / fclose / remove-or-rename per object.          *)
+(* ------------------------------------------------------------------------------------------ *)
+(* the switch is exact: after the content of an entry has been written, the object is a temporary file
+   (created once, descriptor open, entry in the upload directory) iff size > file_in_memory_limit *)
+Theorem spill_iff_size_exceeds_limit : forall mem f,
+  let o := entry_obj mem f in
+  o_inmem o = negb (spills mem f) /\ o_open o = spills mem f /\ fo_on_disk o = spills mem f /\
+  g_create o = (if spills mem f then 1 else 0) /\ g_close o = 0 /\ g_remove o = 0 /\ fo_size o = f_size f /\ o_temp o = true.
+Proof. exact entry_obj_spill. Qed.
+Print Assumptions spill_iff_size_exceeds_limit.
+Theorem spill_threshold_exact : forall f n, f_size f = n ->
+  spills (n + 1) f = false /\ spills n f = false /\ (1 <= n -> spills (n - 1) f = true).
+Proof.
+  intros f n E. unfold spills. rewrite E. repeat split; [apply N.ltb_ge; lia|apply N.ltb_ge; lia|intros H; apply N.ltb_lt; lia].
+Qed.
+Print Assumptions spill_threshold_exact.
+
+(* refused (400 / 413) and aborted requests: every object the parser holds - completed entries and the one
+   in progress - is destroyed with the request; each temporary file created is closed exactly once and
+   removed exactly once, no descriptor and no directory entry is left; until then exactly the entries over
+   the limit are on disk *)
+Theorem refused_or_aborted_request_leaves_nothing : forall mem done cur h, h = HRefused \/ h = HAborted ->
+  let L := lifecycle mem done cur h in
+  Forall obj_gone (l_final L) /\ l_destroyed L = (0, 0) /\ l_released L = (0, 0) /\
+  l_start L = (n_spilled mem (match cur with Some f => f :: done | None => done end),
+               n_spilled mem (match cur with Some f => f :: done | None => done end)).
+Proof. exact refused_lifecycle. Qed.
+Print Assumptions refused_or_aborted_request_leaves_nothing.
+
+(* accepted request, ANY behaviour of the application (close / save_to / make_permanent / keeping a
+   reference beyond the request, in any order, on any of the files): every object ends balanced - created at
+   most once, closed exactly as often as created, no descriptor left; if nothing was made permanent every
+   temporary file is removed or moved away exactly once and the upload directory is empty at the end *)
+Theorem accepted_request_files_closed_and_removed_exactly_once : forall mem done cur acts,
+  let L := lifecycle mem done cur (HReady acts) in
+  Forall obj_balanced (l_final L) /\ fst (l_released L) = 0 /\
+  (forallb (fun a => negb (is_perm a)) acts = true -> Forall obj_gone (l_final L) /\ l_released L = (0, 0)).
+Proof. exact ready_final. Qed.
+Print Assumptions accepted_request_files_closed_and_removed_exactly_once.
+
+(* when the application starts, the temporary files of oversized form FIELDS are already gone (their
+   content is in post()), and exactly the uploaded files over the limit are open temporary files *)
+Theorem application_starts_with_exactly_the_spilled_files : forall mem done cur acts,
+  l_start (lifecycle mem done cur (HReady acts)) = (n_spilled mem (filter has_mime done), n_spilled mem (filter has_mime done)).
+Proof. exact ready_start. Qed.
+Print Assumptions application_starts_with_exactly_the_spilled_files.
+
+(* never while the application can still read it: whatever else the application does, a file it neither
+   closes nor saves keeps its descriptor, its directory entry, its size and its counters *)
+Theorem file_untouched_while_application_runs : forall mem done acts k d,
+  forallb (fun a => negb (touches k a)) acts = true ->
+  same_res (fst (nth k (files_of mem done) d)) (fst (nth k (app_run (files_of mem done) acts) d)).
+Proof. exact ready_window. Qed.
+Print Assumptions file_untouched_while_application_runs.
+
+(* close() twice, or close() then the destructor: nothing happens the second time *)
+Theorem file_close_idempotent : forall o, inv_o o -> fo_close (fo_close o) = fo_close o /\ fo_destroy (fo_close o) = fo_close o.
+Proof. intros o H. split; [apply close_idem|apply destroy_after_close]; exact H. Qed.
+Print Assumptions file_close_idempotent.
+
+Definition ex_big : pfile := mkfile [102] [120] [97;47;98] [1;2;3;4;5].
+Definition ex_small : pfile := mkfile [103] [121] [97;47;98] [1;2].
+Definition ex_field : pfile := mkfile [104] [] [] [1;2;3;4;5;6].
+Example tempfiles_nonvacuous :
+  (* limit 4: the 5-byte file and the 6-byte field spill; the application closes file 0, saves file 1 (in memory: no effect), keeps file 0 *)
+  let L := lifecycle 4 [ex_big; ex_field; ex_small] None (HReady [AClose 0; ASave 1; AKeep 0]) in
+  l_start L = (1, 1) /\ l_app_end L = (0, 0) /\ l_released L = (0, 0) /\
+  map g_create (l_final L) = [0; 1; 1; 0] /\ map g_close (l_final L) = [0; 1; 1; 0] /\ map g_remove (l_final L) = [0; 1; 1; 0] /\
+  (* made permanent: the file stays, by request of the application *)
+  l_released (lifecycle 4 [ex_big] None (HReady [APerm 0])) = (0, 1) /\
+  (* refused with the 5-byte file complete and the field in progress *)
+  l_start (lifecycle 4 [ex_big] (Some ex_field) HRefused) = (2, 2) /\
+  l_destroyed (lifecycle 4 [ex_big] (Some ex_field) HRefused) = (0, 0) /\
+  (* a kept reference survives the request *)
+  l_destroyed (lifecycle 4 [ex_big] None (HReady [AKeep 0])) = (1, 1).
+Proof. vm_compute. repeat split; reflexivity. Qed.
+
+(* ------------------------------------------------------------------------------------------ *)
+(* 7. urlencoded forms under ANY encoding, the GET query, the read_full accumulation            *)
+(* ------------------------------------------------------------------------------------------ *)
+(* every byte may be sent literally (unless it is % + & =), a space as +, or as %XX with hex digits of
+   either case - whatever the client chooses per byte, the decoder returns the original bytes *)
+Theorem urldecode_inverts_any_encoding : forall s e, encs s e -> urldecode e = s.
+Proof. exact urldecode_any. Qed.
+Print Assumptions urldecode_inverts_any_encoding.
+(* exact splitting: items name=value under any encoding, joined by ampersands (with or without a trailing
+   one) are delivered as exactly those pairs, in order *)
+Theorem urlencoded_any_encoding_exact : forall ps its, Forall2 item_of ps its ->
+  parse_urlencoded (join_amp its) = (ps, true) /\ (its <> [] -> parse_urlencoded (join_amp its ++ [38]) = (ps, true)).
+Proof. intros ps its H. split; [apply parse_urlencoded_any; exact H|intros Hne; apply parse_urlencoded_any_trailing; assumption]. Qed.
+Print Assumptions urlencoded_any_encoding_exact.
+(* the GET query string goes through the same splitter; a malformed item empties get() (all or nothing),
+   whereas post() keeps the pairs before the malformed item (model: fst (parse_urlencoded b)) *)
+Theorem get_query_exact : forall ps its, Forall2 item_of ps its -> get_query (join_amp its) = ps.
+Proof. exact get_query_any. Qed.
+Print Assumptions get_query_exact.
+Theorem get_query_all_or_nothing_thm : forall q,
+  get_query q = fst (parse_urlencoded q) \/ (get_query q = [] /\ snd (parse_urlencoded q) = false).
+Proof. exact get_query_all_or_nothing. Qed.
+Print Assumptions get_query_all_or_nothing_thm.
+(* a body that is not multipart/form-data is collected into one buffer of the declared size: the result
+   depends on the concatenation of the reads only, and it is the request-level model the service harness
+   is compared with *)
+Theorem plain_body_chunk_indep : forall L ct declared chunks,
+  request_plain L ct declared chunks = request_plain L ct declared [concat chunks].
+Proof. exact request_plain_chunk_indep. Qed.
+Print Assumptions plain_body_chunk_indep.
+Theorem plain_body_model_is_service_model : forall L ct declared body, is_mp ct = false ->
+  let r := request_service L false ct declared body in
+  request_plain L ct declared [body] = (sv_status r, sv_pairs r).
+Proof. exact request_plain_is_service. Qed.
+Print Assumptions plain_body_model_is_service_model.
+(* content_length_limit at n-1 / n / n+1 for a body of n bytes *)
+Theorem content_length_limit_exact : forall ct n body, (0 < n)%nat -> length body = n ->
+  fst (request_plain (mklim (N.of_nat n) 0) ct n [body]) = 200 /\
+  fst (request_plain (mklim (N.of_nat n + 1) 0) ct n [body]) = 200 /\
+  request_plain (mklim (N.of_nat n - 1) 0) ct n [body] = (413, []).
+Proof. exact plain_limit_exact. Qed.
+Print Assumptions content_length_limit_exact.
+Example urlencoded_any_nonvacuous :   (* the pairs (a b, +) and (a, x) sent as  a+b=%2B&%61=x  *)
+  Forall2 item_of [([97;32;98], [43]); ([97], [120])] [[97;43;98;61;37;50;66]; [37;54;49;61;120]] /\
+  get_query (join_amp [[97;43;98;61;37;50;66]; [37;54;49;61;120]]) = [([97;32;98], [43]); ([97], [120])] /\
+  get_query [97;61;49;38;98] = [] /\ fst (parse_urlencoded [97;61;49;38;98]) = [([97],[49])].
+Proof.
+  split; [|vm_compute; repeat split; reflexivity].
+  constructor; [|constructor; [|constructor]].
+  - exists [97;43;98], [37;50;66]. split; [reflexivity|]. split; [|split; [|discriminate]].
+    + apply (encs_cons 97 [32;98] [97] [43;98]); [constructor; discriminate|].
+      apply (encs_cons 32 [98] [43] [98]); [constructor|].
+      apply (encs_cons 98 [] [98] []); [constructor; discriminate|constructor].
+    + apply (encs_cons 43 [] [37;50;66] []); [apply enc_pct; reflexivity|constructor].
+  - exists [37;54;49], [120]. split; [reflexivity|]. split; [|split; [|discriminate]].
+    + apply (encs_cons 97 [] [37;54;49] []); [apply enc_pct; reflexivity|constructor].
+    + apply (encs_cons 120 [] [120] []); [constructor; discriminate|constructor].
+Qed.
+
+(* ------------------------------------------------------------------------------------------ *)
+(* 8. content_type::parse on every well-formed header                                            *)
+(* ------------------------------------------------------------------------------------------ *)
+(* OWS type/subtype *( OWS ; OWS name OWS = OWS (token | quoted-string) ): media type = lower-cased
+   type/subtype, parameters = exactly the pairs in order with lower-cased names *)
+Theorem content_type_parsed_exactly : forall w0 ty sub ps, ows w0 -> ty <> [] -> sub <> [] ->
+  forallb tchar ty = true -> forallb tchar sub = true -> Forall cp_ok ps ->
+  media_type (ct_enc w0 ty sub ps) = map to_lower ty ++ 47 :: map to_lower sub /\
+  ct_boundary (ct_enc w0 ty sub ps) = FOk (assoc s_boundary (map cp_pair ps)).
+Proof. exact ct_parse_exact. Qed.
+Print Assumptions content_type_parsed_exactly.
+(* the boundary handed to the multipart parser is exactly the value (unquoted, unescaped) of the first
+   parameter whose name is boundary in any case; parameters before and after it do not matter *)
+Theorem boundary_is_exactly_the_parameter_value : forall w0 ty sub before p after,
+  ows w0 -> ty <> [] -> sub <> [] -> forallb tchar ty = true -> forallb tchar sub = true ->
+  Forall cp_ok (before ++ p :: after) ->
+  forallb (fun q => negb (is_boundary_name q)) before = true -> is_boundary_name p = true ->
+  ct_boundary (ct_enc w0 ty sub (before ++ p :: after)) = FOk (pv_val (cp_value p)).
+Proof. exact boundary_extracted_exactly. Qed.
+Print Assumptions boundary_is_exactly_the_parameter_value.
+Theorem header_without_boundary_parameter_gives_none : forall w0 ty sub ps,
+  ows w0 -> ty <> [] -> sub <> [] -> forallb tchar ty = true -> forallb tchar sub = true ->
+  Forall cp_ok ps -> forallb (fun q => negb (is_boundary_name q)) ps = true ->
+  ct_boundary (ct_enc w0 ty sub ps) = FOk [].
+Proof. exact no_boundary_parameter_refused. Qed.
+Print Assumptions header_without_boundary_parameter_gives_none.
+Example content_type_nonvacuous :   (* Multipart/Form-Data, charset=x, BOUNDARY quoted with an escaped quote inside, a second boundary; tab and space as OWS *)
+  let p1 := mkcp [32] [] [] [] [99;104;97;114;115;101;116] (VTok [120]) in
+  let p2 := mkcp [] [32] [32] [9] [66;79;85;78;68;65;82;89] (VQuoted [97;34;98]) in
+  let p3 := mkcp [32] [] [] [] [98;111;117;110;100;97;114;121] (VTok [122]) in
+  Forall cp_ok [p1; p2; p3] /\
+  ct_boundary (ct_enc [32] [77;117;108;116;105;112;97;114;116] [70;111;114;109;45;68;97;116;97] [p1; p2; p3]) = FOk [97;34;98] /\
+  is_mp (ct_enc [32] [77;117;108;116;105;112;97;114;116] [70;111;114;109;45;68;97;116;97] [p1; p2; p3]) = true.
+Proof.
+  cbv zeta. split; [|vm_compute; split; reflexivity].
+  repeat constructor; try discriminate.
+Qed.
+
+(* ------------------------------------------------------------------------------------------ *)
+(* 9. limits: exact boundaries at n-1 / n / n+1, and the decisions of the CURRENT source          *)
+(*    (coq/gen/Gen_c12lim.v: integer leafs lifted textually from file_buffer::overflow,          *)
+(*    request::on_content_start, request::size_ok, cached_settings.h, content_limits)            *)
+(* ------------------------------------------------------------------------------------------ *)
+(* a body of n > 0 bytes: accepted by on_content_start with the limit that applies at n and n+1, 413 at n-1;
+   the other limit is irrelevant (multipart bodies are not subject to content_length_limit and vice versa) *)
+Theorem declared_length_limits_exact : forall n other, (0 < n)%nat ->
+  start_status (mklim other (N.of_nat n)) true n = 0 /\ start_status (mklim other (N.of_nat n + 1)) true n = 0 /\
+  start_status (mklim other (N.of_nat n - 1)) true n = 413 /\
+  start_status (mklim (N.of_nat n) other) false n = 0 /\ start_status (mklim (N.of_nat n + 1) other) false n = 0 /\
+  start_status (mklim (N.of_nat n - 1) other) false n = 413.
+Proof.
+  intros n other Hn. unfold start_status. destruct (Nat.eqb_spec n 0); [lia|]. cbn [multipart_limit content_length_limit].
+  destruct (N.ltb_spec (N.of_nat n) (N.of_nat n)); [lia|].
+  destruct (N.ltb_spec (N.of_nat n + 1) (N.of_nat n)); [lia|].
+  destruct (N.ltb_spec (N.of_nat n - 1) (N.of_nat n)); [|lia]. repeat split; reflexivity.
+Qed.
+Print Assumptions declared_length_limits_exact.
+Theorem refused_at_start_is_413_in_the_service_model : forall L raw ct declared body,
+  start_status L (is_mp ct) declared = 413 -> sv_status (request_service L raw ct declared body) = 413.
+Proof. exact start_status_service. Qed.
+Print Assumptions refused_at_start_is_413_in_the_service_model.
+(* a form field of n bytes against content_length_limit n-1 / n / n+1; an entry with a MIME type is never limited here *)
+Theorem field_size_limit_exact : forall f n, f_size f = n ->
+  size_ok (Some n) f = true /\ size_ok (Some (n + 1)) f = true /\
+  (has_mime f = false -> 1 <= n -> size_ok (Some (n - 1)) f = false) /\ (has_mime f = true -> forall a, size_ok (Some a) f = true).
+Proof.
+  intros f n E. unfold size_ok. rewrite E. repeat split.
+  - destruct (N.leb_spec n n); [apply orb_true_r|lia].
+  - destruct (N.leb_spec n (n + 1)); [apply orb_true_r|lia].
+  - intros Hm Hn. rewrite Hm. destruct (N.leb_spec n (n - 1)); [lia|reflexivity].
+  - intros Hm a. rewrite Hm. reflexivity.
+Qed.
+Print Assumptions field_size_limit_exact.
+
+Theorem source_spill_switch_is_model : forall size limit,
+  g_c12_spill (Z.of_N size) (Z.of_N limit) = (if (limit <=? size)%N then 1%Z else 0%Z).
+Proof. exact link_spill. Qed.
+Print Assumptions source_spill_switch_is_model.
+Theorem source_buffer_growth_is_model : forall cap limit, (2 * Z.of_N cap < 2 ^ 64)%Z ->
+  g_c12_grow (Z.of_N cap) (Z.of_N limit) =
+  Z.of_N (let d := 2 * cap in let d := if d =? 0 then 64 else d in if limit <? d then limit else d) /\
+  g_c12_buffer_size = Z.of_N buffer_size.
+Proof. intros cap limit H. split; [apply link_grow; exact H|exact link_buffer_size]. Qed.
+Print Assumptions source_buffer_growth_is_model.
+Theorem source_on_content_start_is_model : forall L (mp : bool) declared,
+  g_c12_start (Z.of_nat declared) (if mp then 1%Z else 0%Z) (Z.of_N (multipart_limit L)) (Z.of_N (content_length_limit L))
+  = Z.of_N (start_status L mp declared) /\
+  (forall z a b c, (z < 0)%Z -> g_c12_start z a b c = 400%Z).
+Proof. intros L mp declared. split; [apply link_start|intros z a b c H; apply link_start_negative; exact H]. Qed.
+Print Assumptions source_on_content_start_is_model.
+Theorem source_size_ok_is_model : forall a f,
+  size_ok (Some a) f = negb (Z.eqb (g_c12_size_ok (if has_mime f then 1%Z else 0%Z) (Z.of_N (f_size f)) (Z.of_N a)) 0).
+Proof. exact size_ok_is_link. Qed.
+Print Assumptions source_size_ok_is_model.
+Theorem source_default_limits_are_model :
+  g_c12_def_cl = Z.of_N (content_length_limit default_limits) /\
+  g_c12_def_mp = Z.of_N (multipart_limit default_limits) /\
+  g_c12_def_mem = Z.of_N default_file_in_memory_limit.
+Proof. exact link_defaults. Qed.
+Print Assumptions source_default_limits_are_model.
+Example limits_exact_nonvacuous :
+  multipart_limit default_limits = 67108864 /\ content_length_limit default_limits = 1048576 /\ default_file_in_memory_limit = 131072 /\
+  start_status (mklim 10 20) true 20 = 0 /\ start_status (mklim 10 20) true 21 = 413 /\
+  start_status (mklim 10 20) false 10 = 0 /\ start_status (mklim 10 20) false 11 = 413 /\
+  spills 5 ex_big = false /\ spills 4 ex_big = true /\ size_ok (Some 5) ex_field = false /\ size_ok (Some 6) ex_field = true.
+Proof. vm_compute. repeat split; reflexivity. Qed.
+
+(* ------------------------------------------------------------------------------------------ *)
+(* 10. REPAIRED (3fc4520, was finding bare-cr-in-part-header-misframed): regression Examples.    *)
+(*     The body with a bare CR at the end of the last header line of part a - formerly accepted   *)
+(*     with the single entry (a, z) - is now framed exactly: (a, body) and (b, z), under the       *)
+(*     single-chunk and the one-byte chunking.                                                     *)
+(* ------------------------------------------------------------------------------------------ *)
+Definition finding_ct : list N := [109;117;108;116;105;112;97;114;116;47;102;111;114;109;45;100;97;116;97;59;32;98;111;117;110;100;97;114;121;61;107].
+Definition finding_body : list N := [45;45;107;13;10;67;111;110;116;101;110;116;45;68;105;115;112;111;115;105;116;105;111;110;58;32;102;111;114;109;45;100;97;116;97;59;32;110;97;109;101;61;34;97;34;13;10;88;45;78;111;116;101;58;32;113;13;13;10;13;10;98;111;100;121;13;10;45;45;107;13;10;67;111;110;116;101;110;116;45;68;105;115;112;111;115;105;116;105;111;110;58;32;102;111;114;109;45;100;97;116;97;59;32;110;97;109;101;61;34;98;34;13;10;13;10;122;13;10;45;45;107;45;45;13;10].
+Example bare_cr_header_regression :
+  request_multipart (mklim 1000 100000) finding_ct (length finding_body) [finding_body]
+  = RReady [mkfile [97] [] [] (rev [98;111;100;121]); mkfile [98] [] [] [122]] /\
+  request_multipart (mklim 1000 100000) finding_ct (length finding_body) (map (fun c => [c]) finding_body)
+  = RReady [mkfile [97] [] [] (rev [98;111;100;121]); mkfile [98] [] [] [122]].
+Proof. vm_compute. split; reflexivity. Qed.
+
+(* the repair changed nothing for well-formed input: on every header text without a bare CR (every CR
+   followed by LF) the matcher as it was (hterm_old: reset to 0) and the repaired one run identically, from
+   any state *)
+Theorem repair_changed_nothing_without_bare_cr : forall w p, (p < 4)%nat -> nb (after_cr p) w = true -> hterm_old p w = hterm p w.
+Proof. exact old_matcher_same_without_bare_cr. Qed.
+Print Assumptions repair_changed_nothing_without_bare_cr.
+Example repair_nonvacuous :
+  nb (after_cr 0) [88;58;13;10;32;97;13;10;13;10] = true /\ hterm 0 [88;58;13;10;32;97;13;10;13;10] = None /\
+  occurs crlfcrlf [88;13;13;10;13;10;120] /\ hterm 0 [88;13;13;10;13;10;120] = None.
+Proof. split; [reflexivity|]. split; [reflexivity|]. split; [exists [88;13], [120]; reflexivity|reflexivity]. Qed.
+
+(* ------------------------------------------------------------------------------------------ *)
+(* 11. a content filter that aborts the upload (abort_upload thrown from the k-th on_new_file)   *)
+(* ------------------------------------------------------------------------------------------ *)
+Theorem filter_that_never_aborts_is_plain_filter : forall bnd lim chunk s a,
+  feed_ab bnd lim 0 s chunk a = feed_f bnd lim s chunk a.
+Proof. exact feed_ab_never. Qed.
+Print Assumptions filter_that_never_aborts_is_plain_filter.
+(* refusals are 400, 413 or the code of the filter, the latter exactly when its k-th on_new_file was reached *)
+Theorem aborting_filter_refusal_codes : forall bnd lim k chunk s a c a', feed_ab bnd lim k s chunk a = (OStop c, a') ->
+  c = 400 \/ c = 413 \/ (c = 403 /\ n_new a' = k).
+Proof. exact feed_ab_codes. Qed.
+Print Assumptions aborting_filter_refusal_codes.
+(* whatever is not accepted - aborted by the filter, refused, incomplete - hands nothing to the application *)
+Theorem aborted_upload_delivers_nothing : forall L k ct declared body,
+  sv_status (request_service_ab L k ct declared body) <> 200 ->
+  sv_entries (request_service_ab L k ct declared body) = [] /\ sv_pairs (request_service_ab L k ct declared body) = [].
+Proof. exact aborted_nothing_delivered. Qed.
+Print Assumptions aborted_upload_delivers_nothing.
+Example abort_nonvacuous :   (* the finding body has two parts: abort at the first on_new_file gives 403 *)
+  sv_status (request_service_ab (mklim 1000 100000) 1 finding_ct (length finding_body) finding_body) = 403 /\
+  sv_status (request_service_ab (mklim 1000 100000) 5 finding_ct (length finding_body) finding_body) = 200.
+Proof. vm_compute. split; reflexivity. Qed.
+
+(* the outcome of a request with an aborting filter, and everything the filter was told before, does not
+   depend on where the input is cut (same statement as filter_events_cut_anywhere, for feed_ab) *)
+Theorem aborting_filter_cut_anywhere : forall bnd lim k a b s acc, inv s -> b <> [] ->
+  feed_ab bnd lim k s (a ++ b) acc = then_feed_ab bnd lim k (feed_ab bnd lim k s a acc) b.
+Proof. exact feed_ab_app. Qed.
+Print Assumptions aborting_filter_cut_anywhere.
